@@ -399,6 +399,9 @@ class CatalogWriter(AbstractContextManager, HandlesDataChunk):
         buffersize:
             Optional, maximum number of records to store in the internal cache
             of each patch writer.
+        num_patches:
+            Optional, the number of patches expected (if patch centers are
+            provided), used to verify that all patches contain data.
 
     Attributes:
         cache_directory:
@@ -420,6 +423,7 @@ class CatalogWriter(AbstractContextManager, HandlesDataChunk):
         "cache_directory",
         "buffersize",
         "writers",
+        "_expected_patches",
     )
 
     def __init__(
@@ -429,8 +433,10 @@ class CatalogWriter(AbstractContextManager, HandlesDataChunk):
         chunk_info: DataChunkInfo,
         overwrite: bool = True,
         buffersize: int = -1,
+        num_patches: int | None = None,
     ) -> None:
         self._chunk_info = chunk_info
+        self._expected_patches = num_patches
         self.cache_directory = Path(cache_directory)
         cache_exists = self.cache_directory.exists()
 
@@ -536,6 +542,11 @@ class CatalogWriter(AbstractContextManager, HandlesDataChunk):
         for patch_id in empty_patches:
             raise ValueError(f"patch with ID {patch_id} contains no data")
 
+        if self._expected_patches is not None:
+            missing = set(range(self._expected_patches)) - set(self.writers.keys())
+            for patch_id in sorted(missing):
+                raise ValueError(f"patch with ID {patch_id} contains no data")
+
         patch_ids = np.fromiter(self.writers.keys(), dtype=np.int16)
         # the patch info file marks the cache as complete, create it atomically
         info_file = self.cache_directory / PATCH_INFO_FILE
@@ -591,6 +602,7 @@ def write_patches_unthreaded(
             chunk_info=reader.copy_chunk_info(drop_patch_ids=True),
             overwrite=overwrite,
             buffersize=buffersize,
+            num_patches=None if patch_centers is None else len(patch_centers),
         ) as writer:
             chunk_iter = Indicator(reader) if progress else iter(reader)
             for chunk in chunk_iter:
@@ -672,6 +684,7 @@ if parallel.use_mpi():
         chunk_info: DataChunkInfo,
         overwrite: bool = True,
         buffersize: int = -1,
+        num_patches: int | None = None,
     ) -> None:
         """A dedicated writer process that recieves a dictionary with patch IDs
         and patch data to write using a :obj:`CatalogWriter`, terminated when
@@ -682,6 +695,7 @@ if parallel.use_mpi():
             chunk_info=chunk_info,
             overwrite=overwrite,
             buffersize=buffersize,
+            num_patches=num_patches,
         ) as writer:
             while (patches := recv(source=MPI.ANY_SOURCE, tag=1)) is not EndOfQueue:
                 writer.process_patches(patches)
@@ -750,6 +764,7 @@ if parallel.use_mpi():
                 chunk_info=reader.copy_chunk_info(drop_patch_ids=True),
                 overwrite=overwrite,
                 buffersize=buffersize,
+                num_patches=None if patch_centers is None else len(patch_centers),
             )
 
         elif rank in worker_config.active_ranks:
@@ -812,6 +827,7 @@ else:
         chunk_info: DataChunkInfo = field(kw_only=True)
         overwrite: bool = field(default=True, kw_only=True)
         buffersize: int = field(default=-1, kw_only=True)
+        num_patches: int | None = field(default=None, kw_only=True)
 
         def __post_init__(self) -> None:
             self.process = multiprocessing.Process(target=self.task)
@@ -829,6 +845,7 @@ else:
                 overwrite=self.overwrite,
                 chunk_info=self.chunk_info,
                 buffersize=self.buffersize,
+                num_patches=self.num_patches,
             ) as writer:
                 while (patches := self.patch_queue.get()) is not EndOfQueue:
                     writer.process_patches(patches)
@@ -915,6 +932,7 @@ else:
                 chunk_info=reader.copy_chunk_info(drop_patch_ids=True),
                 overwrite=overwrite,
                 buffersize=buffersize,
+                num_patches=None if patch_centers is None else len(patch_centers),
             ):
                 chunk_iter = Indicator(reader) if progress else iter(reader)
                 for chunk in chunk_iter:
